@@ -327,3 +327,18 @@ Fixpoint d_noerr (st : dst) (ops : list (N * list N)) : bool :=
   | op :: t =>
       (if fst op =? 0 then snd (d_insert st (snd op)) else true) && d_noerr (fst (d_step st op)) t
   end.
+
+(* the same with clone steps: every insert of the history and every re-insertion done by a clone returned Ok *)
+Fixpoint d_inserts_ok (L : list (list N)) (st : dst) : bool :=
+  match L with
+  | [] => true
+  | k :: t => snd (d_insert st k) && d_inserts_ok t (fst (d_insert st k))
+  end.
+Definition d_clone_ok (st : dst) : bool := d_inserts_ok (da_keys (d_da st)) d_empty.
+Fixpoint d_noerr_c (st : dst) (ops : list (N * list N)) : bool :=
+  match ops with
+  | [] => true
+  | op :: t =>
+      (if fst op =? 0 then snd (d_insert st (snd op)) else if fst op =? 8 then d_clone_ok st else true)
+      && d_noerr_c (fst (d_step st op)) t
+  end.
